@@ -183,6 +183,12 @@ def summarize(o):
     return o
 
 
+def late_block(n, delay):
+    """a large result that arrives a little later"""
+    time.sleep(delay)
+    return b'z' * n
+
+
 def tagged_block(i, n, at=None):
     """a large result that says whose it is, delivered at a given instant"""
     if at is not None:
@@ -322,6 +328,21 @@ def main(tier, seed, replay=None):
                     res.violation(dict(kind=kname, concurrent_large_results=3, worker=i),
                                   f'worker {i} of three {kname} workers returning 16 MB blocks at the same instant: has_error={w.has_error}, result {summary} differs from the direct call')
                     break
+        # an unbounded wait() on a worker whose large outcome is still to come: neither side may end up waiting for the other
+        for kname, (cls, wt, extra) in kinds.items():
+            w = cls(target=late_block, args=(6_000_000, 0.5), **extra)
+            done, ok = core.with_deadline(w.wait, 40)
+            res.count('unbounded-wait-large:' + kname); res.case(('unbounded-wait-large', kname), nontrivial=True)
+            if not done:
+                res.violation(dict(kind=kname, call='late_block(6 MB after 0.5 s)', protocol='wait() without a timeout'),
+                              f'{kname} worker: wait() with no timeout did not return within 40 s for a 6 MB result that the target delivers after 0.5 s')
+                try:
+                    w.terminate(timeout=1, force=True) if kname != 'thread' else None
+                except BaseException:   # noqa
+                    pass
+            elif not (ok is True and w.has_error is False and w.result == late_block(6_000_000, 0)):
+                res.violation(dict(kind=kname, call='late_block(6 MB after 0.5 s)', protocol='wait() without a timeout'),
+                              f'{kname} worker: wait() -> {ok}, has_error={w.has_error}, result differs from the direct call')
         # the factory for persistent classes
         for wt, name in ((WorkerType.THREAD, 'PersistentThreadWorker'), (WorkerType.PROCESS, 'PersistentProcessWorker'), (WorkerType.REMOTE, 'PersistentRemoteWorker')):
             w = PersistentWorker.create(wt, target=identity, run=False, **({'host': host} if wt is WorkerType.REMOTE else {}))
